@@ -128,3 +128,65 @@ func VH_C09H() {
 	vAssert(rec.evs[n0].P == ref, "C09: the record's bytes do not depend on the records written before it")
 	vKnown("")
 }
+
+// VH_C09E: real histories through the ordinary entry points (Info/Warn/Error
+// with call-site arguments, bound logger attributes, the pooled attribute
+// slice of logContext). The loggers use a layout without time verbs, so the
+// timestamp field is a constant and payloads are comparable byte for byte
+// without explicit timestamps.
+func vC09ELogger(name string, rec *vRec, cfg int) *Entry {
+	lg := New(name).(*logimp).Entry
+	lg.SetWriter(&recW{0, rec}).SetErrorWriter(&recW{0, rec}).SetLevel(TraceLevel).SetTimeFormat("@")
+	switch cfg % 3 {
+	case 1:
+		lg.SetJSONMode(true)
+	case 2:
+		lg.SetColorMode(false)
+	}
+	if cfg/3 == 1 {
+		lg.SetAttrs(NewAttr("region", "eu"), NewAttr("tenant", "acme"))
+	}
+	return lg
+}
+
+func vC09EEmit(lg *Entry, shape int) {
+	switch shape {
+	case 0:
+		lg.Info("m")
+	case 1:
+		lg.Info("m", "user", "u", "id", 7)
+	case 2:
+		lg.Warn("w", Group("g", "x", 1))
+	case 3:
+		lg.Error("e", "err", errors.New("boom"))
+	case 4:
+		lg.Info("m\nn", "k", 1)
+	}
+}
+
+func VH_C09E() {
+	vProduction()
+	flags = LstdFlags &^ Lcaller
+	rec := &vRec{}
+	cb, sb := vChoose(6), vChoose(5)
+	vC09EEmit(vC09ELogger("b", rec, cb), sb)
+	vAssert(len(rec.evs) == 1, "C09: the probe writes one record")
+	ref := rec.evs[0].P
+	_ = poolPrintCtx.Get()
+	_ = poolPrintCtx.Get()
+	poolPrintCtx.Put(newPrintCtx())
+	lgB := vC09ELogger("b", rec, cb)
+	lgA := lgB
+	if vBool() {
+		lgA = vC09ELogger("a", rec, vChoose(6))
+	}
+	vC09EEmit(lgA, vChoose(5))
+	if vBool() {
+		vC09EEmit(vC09ELogger("c", rec, 2), 1) // a third logger recycling the pools
+	}
+	n0 := len(rec.evs)
+	vC09EEmit(lgB, sb)
+	vAssert(len(rec.evs) == n0+1, "C09: the probe writes one record")
+	vCover("C09E:compared")
+	vAssert(rec.evs[n0].P == ref, "C09: the record's bytes do not depend on the records written before it (entry points)")
+}
